@@ -41,6 +41,10 @@ fn run_one<P: Prop>(p: &P, opt: &Options) -> i32 {
         r.violations,
         r.known
     );
+    let planned = opt.runs_override.unwrap_or_else(|| p.runs(opt.tier));
+    if r.runs < planned && r.exit_code == 0 {
+        say!("NOTE property={} pass truncated by its wall-clock budget after {} of {} runs ({}s)", p.id(), r.runs, planned, opt.max_seconds.unwrap_or(0.0));
+    }
     let missing: Vec<&str> = p.required_probes(opt.tier).into_iter().filter(|n| r.stats.get(&format!("probe.{n}")) == 0).collect();
     if !missing.is_empty() && opt.runs_override.is_none() && opt.max_seconds.is_none() {
         say!("NOTE property={} probes never hit in this batch: {:?}", p.id(), missing);
@@ -118,6 +122,15 @@ fn main() {
                     _ => usage(),
                 }
                 i += 1;
+            }
+            // wall-clock budget per pass (never reached on the shipped tree: quick passes take seconds). It only
+            // bounds how long a check can be made to run by a change that slows the code under test down
+            // enormously; a truncated pass says so in its summary line and evidence.
+            if opt.max_seconds.is_none() {
+                opt.max_seconds = Some(match opt.tier {
+                    Tier::Quick => 240.0,
+                    Tier::Thorough => 2400.0,
+                });
             }
             let code = match id.as_str() {
                 "C16" => run_one(&c16::C16, &opt),
